@@ -206,8 +206,80 @@ fn exec_out(schema: &apollo_compiler::validation::Valid<Schema>, op: &str) -> St
     }
 }
 
+/// What a thread observes of a schema it built itself: the type map (which built-in scalars were
+/// kept), the serialisation, and two meta-field lookups
+fn own_schema_out(text: &str) -> String {
+    match Schema::parse_and_validate(text, "own.graphql") {
+        Ok(schema) => {
+            let names: Vec<&str> = schema.types.keys().map(|n| n.as_str()).collect();
+            let meta: Vec<String> = ["__typename", "__schema", "nope"]
+                .iter()
+                .map(|m| format!("{:?}", schema.type_field("Query", m).map(|f| f.ty.to_string()).ok()))
+                .collect();
+            format!("OK types {names:?} meta {meta:?}\n{schema}")
+        }
+        Err(e) => {
+            let mut s = format!("ERR {} diagnostics\n", e.errors.len());
+            for d in e.errors.iter() {
+                s.push_str(&d.error.to_string());
+                s.push('\n');
+            }
+            s
+        }
+    }
+}
+
+const OWN_SCHEMAS: &[&str] = &[
+    "type Query { a: Int b: [B!] } type B { x: String }",
+    "type Query { f: Float } scalar S type T { i: ID! s: S }",
+    "type Query { a: Missing } type T implements I { y: Int }",
+];
+
+/// C31, cold-schema mode: the first-ever *schema* validations of the process race each other
+/// (the lazily initialised built-in scalar table, meta-field definitions, built-in schema)
+fn c31_cold_schemas(seed: u64) {
+    let mut rng = Rng::new(rng::mix(&[seed, 0x34]));
+    let n_threads = rng.range(2, 3) as usize;
+    let mut handles = vec![];
+    for t in 0..n_threads {
+        let first = rng.usize(OWN_SCHEMAS.len());
+        handles.push(std::thread::spawn(move || {
+            let mut outs = vec![];
+            for k in 0..2 {
+                let i = (first + k) % OWN_SCHEMAS.len();
+                outs.push((i, own_schema_out(OWN_SCHEMAS[i])));
+            }
+            (outs, FileId::new().__verif_raw(), t)
+        }));
+    }
+    let mut ids = vec![];
+    let mut all = vec![];
+    for h in handles {
+        let (outs, id, t) = h.join().unwrap();
+        ids.push(id);
+        all.push((t, outs));
+    }
+    for (t, outs) in all {
+        for (i, out) in outs {
+            let reference = own_schema_out(OWN_SCHEMAS[i]);
+            if reference != out {
+                fail(format!("class=differs_from_sequential cold schema {i} on thread {t}: concurrent {out:?} vs sequential {reference:?}"));
+            }
+        }
+    }
+    let mut sorted = ids.clone();
+    sorted.sort();
+    sorted.dedup();
+    if sorted.len() != ids.len() || ids.iter().any(|id| *id < 3 || *id >> 63 != 0) {
+        fail(format!("class=duplicate_file_id ids {ids:?}"));
+    }
+}
+
 /// C31: free-running threads, cold statics: first-ever validations race each other
 fn c31_free(seed: u64) {
+    if seed % 3 == 1 {
+        return c31_cold_schemas(seed);
+    }
     let mut rng = Rng::new(rng::mix(&[seed, 0x33]));
     let schema = Arc::new(Schema::parse_and_validate(SCHEMA, "schema.graphql").expect("valid schema"));
     let n_threads = rng.range(2, 3) as usize;
